@@ -17,6 +17,32 @@ WHAT = {
 }
 
 
+# what the contracts of the kernel functions decide for each pipeline property (for all inputs, discharged by SMT);
+# the quantifier over the remaining rule bodies is the part that stays with the bounded layer
+BASES = "the _fix_violation of the three most used fix bases (token_case: 243 of the 1049 rule objects inherit it unchanged, whitespace_between_tokens: 171, token_indent: 102 — 516 rules in all) against effect contracts, with the _analyze of token_indent and whitespace_between_tokens proved to establish their preconditions"
+DED = {
+    "C01": "vhdlFile.update is the splice of the analysed regions (everything in front of the first region keeps identity and place; one region: exactly old[:start] + new + old[end:]); remove_beginning_of_file_tokens is a filter; " + BASES + ": every non-white-space token of the region is the same object in the same order, token_case changes the first token's value in letter case only and keeps its length; the phase-1 normalisers (fix_blank_lines, fix_trailing_whitespace) keep every non-blank token and every line break",
+    "C02": BASES + ": non-white-space tokens (so every comment, pragma and preprocessor token of the region) are the same objects in the same order with unchanged values; the phase-1 normalisers keep them too",
+    "C03": BASES + " (white-space rules write white-space tokens only; case rules change letter case only, same length); rule_list.fix calls Rule.fix only for error-type severities of enabled rules and Rule.fix does nothing at all when fixable is false (ghost operation log)",
+    "C06": "rule_list.check_rules analyses exactly the enabled rules of the visited phases, each once, and modifies nothing but rule.violations and its own counters (frame proved against the assumed frame of Rule.analyze); add_violation / has_code_tag decide suppression from the stamped tags only",
+    "C07": "extract_tokens: a sub-region's line is the region's line plus the line breaks skipped, its start index the region's start plus the tokens skipped; count_carriage_returns counts line breaks; " + BASES + ": the number of line breaks of the region is unchanged",
+    "C08": "apply_rules: with --fix the single write happens after all fixing, exactly when some _fix_violation ran, and what is written is get_lines() of the model the final report is computed from (nothing between the write and the report modifies the token list); get_lines is the per-line concatenation of token values; write_vhdl_file writes join(get_lines()[1:]) + newline; the phase-1 normalisers and update_token_map are verified (index == INDEX(list) afterwards); rule_list.fix runs set_token_indent before phase 4 and the normalisers after phase 1",
+    "C09": "rule_list.fix: fixed order of phases, sub-phases and rules (a function of the rule list only), normalisers after phase 1, indent refresh before phase 4; the normalisers are idempotent-compatible filters (keep non-blank tokens and line breaks)",
+    "C10": "Rule.fix analyses, filters, fixes each violation once and updates once; " + BASES + " have postconditions that state the region carries the requested white space / indentation / case afterwards; vhdlFile.update rebuilds the index iff bUpdateMap",
+    "C18": "vhdlFile.update: splice semantics and 'index rebuilt from the new list iff bUpdateMap'; update_token_map: index == INDEX(list); calculate_end_index / extract_tokens: [iStartIndex, iEndIndex) has as many positions as the region has real tokens and sub-regions shift the start by the tokens skipped; token_case._fix_violation keeps the region's token objects (remap=False is sound for it)",
+    "C19": "vsg/tokens.py raises nothing for any string; apply_rules lets no ClassifyError / ConfigurationError / local-rules OSError escape, returns exit status True/1 for a rejected file and 'keep processing' after a syntax error; detect_subelement_until / classify_subelement_until (the statement-part loops of the parser) terminate (decreases clause) given that a classifier never returns an index in front of its argument; object_value_is raises IndexError exactly for an index past the end; the three fix bases above raise nothing under their preconditions",
+}
+
+
+def meta(pid, extra_note=""):
+    return {
+        "level": "other",
+        "technique": "contract-based deductive verification (pyvc: contracts on the real functions, VCs from the real AST, cvc5/z3) of the kernel functions the property depends on; the quantifier over all rule bodies is covered by runtime evaluation of the same effect contracts at the choke points of the real code (Rule.fix, Rule.analyze, vhdlFile.update, rule_list.fix) over a finite universe of inputs: a labelled bounded stand-in, not a proof",
+        "text": "PROVED for all inputs (kernel): " + DED[pid] + ". BOUNDED (the property itself, every rule): " + WHAT[pid] + ". The other fix bases (about half of the rules) are not under contract (DESIGN.md section 2 lists which are), hence level 'other'.",
+        "note": "Universe of the bounded part: repository fixtures x 3 configurations + 2 input variants + generated micro designs. Known findings of the unchanged tree are listed in known_findings.json by (rule, file, configuration, variant). Assumed: abstract contracts of Rule.analyze / Rule._fix_violation (virtual), process_tokens (INDEX stub), P_update (regions ascending and disjoint) as hypothesis of the splice clauses. Trusted: pyvc, SMT solvers, CPython-validated lemma schemas." + extra_note,
+    }
+
+
 def pipeline_part(c, pid):
     res, cached = runner.run_all(c.tier, c.seed)
     errs = [r for r in res if r["stats"].get("error")]
